@@ -35,6 +35,9 @@ var logger = func() *log.Logger {
 	return l
 }()
 
+// fuzzMode is set by the native fuzz targets: smaller cases (see fuzz_test.go).
+var fuzzMode bool
+
 var emptyRoot = common.HexToHash("56e81f171bcc55a6ff8345e692c0f86e5b48e01b996cadc001622fb5e363b421")
 
 // ---- reference root -------------------------------------------------------------------------
